@@ -641,6 +641,9 @@ package vanguard
 //@   ensures[C02] err == nil ==> r.current != nil && (r.rw.op.serverEnveloper != nil ==> r.envRemain == 5) && (r.rw.op.serverEnveloper == nil ==> r.envRemain == 0)
 //@   ensures[C09] err != nil ==> r.envRemain == old(r.envRemain) && r.current == old(r.current)
 //@   ensures[C10,C02] err == nil && r.rw.op.clientEnveloper == nil && r.rw.op.serverEnveloper != nil ==> be32(r.env) <= limitOf(r.rw.op)
+//@   atcall[C02] (vanguard.serverEnvelopedProtocolHandler).encodeEnvelope: !arg(1).trailer && (r.rw.op.clientEnveloper == nil ==> arg(1).compressed == (r.rw.op.client.reqCompression != nil))
+//@   atcall[C02] (vanguard.serverEnvelopedProtocolHandler).encodeEnvelope: r.rw.op.clientEnveloper == nil && r.rw.op.contentLen != -1 ==> arg(1).length == r.rw.op.contentLen
+//@   atcall[C02] (vanguard.serverEnvelopedProtocolHandler).encodeEnvelope: r.rw.op.clientEnveloper == nil && r.rw.op.contentLen == -1 ==> typeIs(r.current, *bytes.Buffer) && arg(1).length == blen(unbox(r.current, *bytes.Buffer))
 
 //@ func (*envelopingReader).Read
 //@   dispatch (io.Reader).Read: *hardLimitReader
@@ -828,6 +831,10 @@ package vanguard
 //@   atcall[C03,C09,C16] (net/http.Handler).ServeHTTP: typeIs(arg(1), *responseWriter) && arg(1) == o.writer && rwFull(unbox(arg(1), *responseWriter)) && unbox(arg(1), *responseWriter).op == o && unbox(arg(1), *responseWriter).delegate == old(o.writer)
 //@   atcall[C08,C10] (net/http.Handler).ServeHTTP: arg(2).Body == old(o.request.Body) || (typeIs(arg(2).Body, *envelopingReader) && validER(unbox(arg(2).Body, *envelopingReader)) && unbox(arg(2).Body, *envelopingReader).rw == unbox(arg(1), *responseWriter)) || (typeIs(arg(2).Body, *transformingReader) && validTR(unbox(arg(2).Body, *transformingReader)) && unbox(arg(2).Body, *transformingReader).rw == unbox(arg(1), *responseWriter))
 //@   atcall[C02] (net/http.Handler).ServeHTTP: arg(2).ContentLength == -1 && arg(2).Proto == old(o.request.Proto) && arg(2).ProtoMajor == old(o.request.ProtoMajor)
+//@   atcall[C02] (net/http.Handler).ServeHTTP: (typeIs(o.server.protocol, grpcServerProtocol) ==> hdr(arg(2).Header, "Content-Type") == "application/grpc+" + ufs("codecName", o.server.codec) && hdr(arg(2).Header, "Te") == "trailers")
+//@ |  && (typeIs(o.server.protocol, grpcWebServerProtocol) ==> hdr(arg(2).Header, "Content-Type") == "application/grpc-web+" + ufs("codecName", o.server.codec))
+//@ |  && (typeIs(o.server.protocol, connectStreamServerProtocol) ==> hdr(arg(2).Header, "Content-Type") == "application/connect+" + ufs("codecName", o.server.codec))
+//@   atcall[C02] (net/http.Handler).ServeHTTP: serverRequestBuilder == nil ==> arg(2).Method == "POST" && arg(2).URL.Path == o.methodConf.methodPath && arg(2).URL.RawQuery == "" && !arg(2).URL.ForceQuery
 //@   atcall[C03,C18] (*responseWriter).close: closes == 1 && served == 1
 
 //@ func (Protocol).serverHandler
